@@ -520,6 +520,16 @@ def file_cycle(obj, text, what, name="manifest.json", dump_kw=None, reload=None)
                     continue
                 if back != text:
                     fails.append("%s: file written to %s reads back differently" % (what, step))
+        if reload is not None and not fails:
+            # written and read through ONE open file object (load() finds the beginning itself, as it does for a path)
+            try:
+                with open(p, "w+") as fh:
+                    obj.dump(fh, **kw)
+                    back = reload(fh)
+                if back != text:
+                    fails.append("%s: written and read back through the same open file object: reads back differently" % what)
+            except Exception as exc:
+                fails.append("%s: written and read back through the same open file object: %s: %s" % (what, type(exc).__name__, exc))
     finally:
         shutil.rmtree(d, ignore_errors=True)
     return fails
